@@ -13,8 +13,9 @@ use dnssec::*;
 use dnssec::denial;
 use domain::base::name::ToName;
 use domain::dnssec::sign::keys::signingkey::SigningKey;
-use domain::dnssec::sign::records::Rrset;
-use domain::dnssec::sign::signatures::rrsigs::sign_rrset;
+use domain::dnssec::sign::records::{Rrset, SortedRecords};
+use std::panic::{catch_unwind, AssertUnwindSafe};
+use domain::dnssec::sign::signatures::rrsigs::{sign_rrset, sign_sorted_rrset_in};
 use domain::dnssec::validator::base::RrsigExt;
 use domain::rdata::dnssec::Timestamp;
 use domain::rdata::Rrsig;
@@ -207,6 +208,7 @@ fn rrsig_of(s: &Value, signature: &[u8]) -> Rrsig<Bytes, SName> {
 fn record_rrsig(out: &str, seed: u64, n: u64) {
     let mut w = TraceWriter::create(out);
     let mut rng = Rng::new(seed);
+    let mut scratch: Vec<u8> = vec![];
     let mut done = 0;
     while done < n {
         // ---- the RRset
@@ -215,6 +217,14 @@ fn record_rrsig(out: &str, seed: u64, n: u64) {
         let mut owner = name(&mut rng, 4);
         if rng.chance(1, 4) {
             owner.insert(0, vec![b'*']);
+        }
+        // an asterisk label that is not the leftmost label is an ordinary label
+        if !owner.is_empty() && rng.chance(1, 5) {
+            let at = 1 + rng.below(owner.len() as u64) as usize;
+            owner.insert(at.min(owner.len()), vec![b'*']);
+            if rng.chance(1, 3) {
+                owner.insert(0, *rng.pick(&[vec![b'*'], vec![b's', b'u', b'b']]));
+            }
         }
         if owner.iter().map(|l| l.len() + 1).sum::<usize>() > 200 {
             continue;
@@ -252,20 +262,64 @@ fn record_rrsig(out: &str, seed: u64, n: u64) {
         let exp = u32::from_be_bytes(inc).wrapping_add(rng.below(0x7FFF_0000) as u32).to_be_bytes();
         let sk = SigningKey::new(name_of(&jlabels(&key_owner)), key["flags"].as_u64().unwrap() as u16,
                                  RecKey::of_json(&key));
-        let rrset = Rrset::new_from_owned(&recs).expect("rrset");
-        let rr = match sign_rrset(&sk, &rrset, Timestamp::from(u32::from_be_bytes(inc)),
-                                  Timestamp::from(u32::from_be_bytes(exp))) {
-            Ok(r) => r,
-            Err(e) => {
+        // The library calls run under catch_unwind: a panic is an event the
+        // trace specification has no action for.
+        let (inc_t, exp_t) = (Timestamp::from(u32::from_be_bytes(inc)), Timestamp::from(u32::from_be_bytes(exp)));
+        // (a) sign_rrset (sorts, fresh buffer)
+        let rr = match catch_unwind(AssertUnwindSafe(|| {
+            let rrset = Rrset::new_from_owned(&recs).expect("rrset");
+            sign_rrset(&sk, &rrset, inc_t, exp_t)
+        })) {
+            Ok(Ok(r)) => r,
+            Ok(Err(e)) => {
                 w.event(json!({"ev": "sign_error", "err": format!("{e}")}));
+                continue;
+            }
+            Err(_) => {
+                w.event(json!({"ev": "panic", "in": "sign_rrset", "rrs": rrs}));
                 continue;
             }
         };
         let buf = sk.raw_secret_key().take().pop().unwrap_or_default();
+        // (b) sign_sorted_rrset_in with the scratch buffer that has been used
+        // for every RRset so far; now and then the backend fails first and
+        // the call is retried, or the buffer is not empty on entry
+        let sorted: SortedRecords<SName, SData> = SortedRecords::from(recs.clone());
+        let mut pre = vec![];
+        if rng.chance(1, 4) {
+            *sk.raw_secret_key().fail_next.lock().unwrap() = true;
+            pre.push("fail");
+        } else if rng.chance(1, 6) {
+            scratch = rng.bytes(5);
+            pre.push("junk");
+        }
+        let mut bufs_in = vec![];
+        let mut oks = vec![];
+        for _ in 0..(if pre.contains(&"fail") { 2 } else { 1 }) {
+            let r = catch_unwind(AssertUnwindSafe(|| {
+                let rrset2 = sorted.rrsets().next().expect("rrset");
+                sign_sorted_rrset_in(&sk, &rrset2, inc_t, exp_t, &mut scratch).map(|r| r.data().clone())
+            }));
+            match r {
+                Ok(res) => {
+                    oks.push(res.as_ref().map(|d| d == rr.data()).unwrap_or(false));
+                    bufs_in.push(jbytes(&sk.raw_secret_key().take().pop().unwrap_or_default()));
+                }
+                Err(_) => {
+                    w.event(json!({"ev": "panic", "in": "sign_sorted_rrset_in", "rrs": rrs}));
+                    bufs_in.clear();
+                    break;
+                }
+            }
+        }
+        if bufs_in.is_empty() {
+            continue;
+        }
         let sig0 = sig_fields(rr.data());
         w.event(json!({"ev": "sign", "key": key, "keyOwner": jlabels(&key_owner),
-                       "inc": jbytes(&inc), "exp": jbytes(&exp), "rrs": rrs,
-                       "res": {"sig0": sig0, "buf": jbytes(&buf)}}));
+                       "inc": jbytes(&inc), "exp": jbytes(&exp), "rrs": rrs, "pre": pre,
+                       "res": {"sig0": sig0, "buf": jbytes(&buf), "bufs_in": bufs_in,
+                               "last_ok": *oks.last().unwrap_or(&false)}}));
         done += 1;
         // ---- resolver side
         for _ in 0..2 {
@@ -342,8 +396,13 @@ fn record_rrsig(out: &str, seed: u64, n: u64) {
             }
             let rsig = rrsig_of(&sig, rr.data().signature());
             let mut vbuf: Vec<u8> = vec![];
-            if rsig.signed_data(&mut vbuf, &mut crecs[..]).is_err() {
-                continue;
+            match catch_unwind(AssertUnwindSafe(|| rsig.signed_data(&mut vbuf, &mut crecs[..]).is_err())) {
+                Ok(false) => {}
+                Ok(true) => continue,
+                Err(_) => {
+                    w.event(json!({"ev": "panic", "in": "signed_data", "cur": cur}));
+                    continue;
+                }
             }
             w.event(json!({"ev": "validate", "cur": cur, "sig": sig, "ops": names, "altered": alter,
                            "res": {"buf": jbytes(&vbuf)}}));
